@@ -289,5 +289,51 @@ func (g *Gen) specElemField(st *State, a Val, fname, src string) Val {
 			}
 		}
 	}
+	if a.Kind == "opaque" && a.T != "" && a.Ty != nil {
+		if pt, ok := a.Ty.Underlying().(*types.Pointer); ok {
+			if stt, ok := pt.Elem().Underlying().(*types.Struct); ok {
+				if i := fieldIndex(stt, fname); i >= 0 {
+					return g.ptrFieldSpec(st, a, pt, i, a.Heap != "")
+				}
+			}
+		}
+	}
 	panic(specErr{"spec: ." + fname + " applied to a value that is not a struct element in " + src})
+}
+
+// ptrFieldSpec reads field i of the struct a pointer value points to, in a specification (isOld: in
+// the entry heap).
+func (g *Gen) ptrFieldSpec(st *State, a Val, pt *types.Pointer, i int, isOld bool) Val {
+	key, ft := g.heapKey(pt, i)
+	heapOf := func(k string) string {
+		if _, ok := g.heapSort[k]; !ok {
+			g.heapSort[k] = "(Array Int Int)"
+		}
+		if isOld {
+			return g.entryHeapOf(k)
+		}
+		return g.heapGet(st, k)
+	}
+	e := fmt.Sprintf("(select %s %s)", heapOf(key), a.T)
+	hp := ""
+	if isOld {
+		hp = g.entryHs
+	}
+	switch u := ft.Underlying().(type) {
+	case *types.Slice:
+		off := fmt.Sprintf("(select %s %s)", heapOf(key+"#off"), a.T)
+		ln := fmt.Sprintf("(select %s %s)", heapOf(key+"#len"), a.T)
+		g.assume(st, fmt.Sprintf("(and (>= %s 0) (<= 0 %s) (<= %s %s) (<= 0 %s) (<= %s %s) (=> (= %s 0) (= %s 0)))", e, off, off, maxLen, ln, ln, maxLen, e, ln))
+		return Val{Ref: e, Off: off, Len: ln, Kind: "slice", Ty: ft, Heap: hp}
+	case *types.Pointer:
+		return Val{T: e, Kind: "opaque", Ty: ft, Heap: hp}
+	case *types.Interface:
+		return Val{T: e, Kind: "err", Ty: ft}
+	case *types.Map:
+		return g.mapFromRef(st, e, u, ft)
+	}
+	if g.heapSort[key] == "(Array Int Bool)" {
+		return Val{T: e, Kind: "bool", Ty: ft}
+	}
+	return Val{T: e, Kind: "int", Ty: ft}
 }
